@@ -64,8 +64,16 @@ class LabelCorr(Corr):
         try:
             lab = conv.convert_label(s)
             r = {"label": lab.label.name, "kept_name": lab.name == s}
-            r["name_label"] = conv.convert_name(s).name
-            r["target_list"] = [l.name for l in set_target_lists([s, s.lower()], conv)]
+            nl = conv.convert_name(s)
+            r["name_label"] = nl.name
+            tl = set_target_lists([s, s.lower()], conv)
+            r["target_list"] = [l.name for l in tl]
+            # the object's label must be a member of the family's enum and the very member the target list holds (enum members of
+            # different families can share a name, e.g. UNKNOWN)
+            from perception_eval.common.label import AutowareLabel, TrafficLightLabel
+            fam = AutowareLabel if case["family"] == "autoware" else TrafficLightLabel
+            r["family_ok"] = bool(isinstance(lab.label, fam) and isinstance(nl, fam) and all(isinstance(l, fam) for l in tl))
+            r["same_member_as_target"] = bool(lab.label is nl and lab.label is tl[0] and lab.label in tl)
             r["lower_label"] = conv.convert_label(s.lower()).label.name
             if case["family"] == "autoware":
                 r["nomerge_label"] = _conv("autoware", False, case["task"]).convert_label(s).label.name
@@ -102,6 +110,10 @@ class LabelCorr(Corr):
         s = case["name"]
         if "error" in obs:
             return f"converting {s!r} failed: {obs['error']}"
+        if not obs["family_ok"]:
+            return f"{s!r} converts to a label that is not a member of the {case['family']} label enum (label {obs['label']})"
+        if not obs["same_member_as_target"]:
+            return f"the label objects get for {s!r} ({obs['label']}) is not the member the target list resolves {s!r} to"
         if obs["label"] != obs["lower_label"]:
             return f"letter case matters: {s!r} -> {obs['label']} but {s.lower()!r} -> {obs['lower_label']}"
         if obs["name_label"] != obs["label"] or obs["target_list"][0] != obs["label"]:
